@@ -805,6 +805,7 @@ def fuse(
         reserved_mem=reserved_mem,
         num_tasks=num_tasks,
         fusable_with_predecessors=True,
+        fusable_with_successors=primitive_op2.fusable_with_successors,
     )
 
 
@@ -865,6 +866,7 @@ def fuse_multiple(
         reserved_mem=reserved_mem,
         num_tasks=num_tasks,
         fusable_with_predecessors=True,
+        fusable_with_successors=primitive_op.fusable_with_successors,
     )
 
 
